@@ -15,9 +15,83 @@ use affinitree::tree::iter::{Bfs, DfsEdge, DfsPre, TraversalMut};
 use serde_json::json;
 use std::collections::BTreeSet;
 
+/// A comb several hundred thousand levels deep, traversed and measured on an ordinary 2 MiB thread stack
+/// (the worker threads of the harness have 64 MiB, which would hide recursion that grows with the depth).
+fn run_deep_comb(case: u64, ev: &mut Ev, depth: usize) {
+    ev.evaluations += 1;
+    crate::util::wal(&format!("IN-SMALL-STACK-THREAD case={} comb of depth {} (depth, depth_stats, num_nodes, traversals, path_to_node, remove_all_descendants) on a 2 MiB stack", case, depth));
+    let handle = std::thread::Builder::new().stack_size(2 << 20).spawn(move || -> Result<(), String> {
+        let r = std::panic::catch_unwind(std::panic::AssertUnwindSafe(|| -> Result<(), String> {
+            let mut t = Tree::<u32, 2>::new();
+            let mut cur = t.add_root(0);
+            let root = cur;
+            for d in 0..depth {
+                // spine under alternating labels, a side leaf under the other one
+                let l = d % 2;
+                let _ = t.add_child_node(cur, 1 - l, 1).map_err(|e| e.to_string())?;
+                cur = t.add_child_node(cur, l, 2).map_err(|e| e.to_string())?;
+            }
+            let n = 2 * depth + 1;
+            let ck = |name: &str, got: usize, exp: usize| -> Result<(), String> { if got == exp { Ok(()) } else { Err(format!("{} = {} expected {}", name, got, exp)) } };
+            ck("len", t.len(), n)?;
+            ck("depth", t.depth(), depth)?;
+            ck("num_nodes(root)", t.num_nodes(root), n)?;
+            ck("num_terminals", t.num_terminals(), depth + 1)?;
+            let st = t.depth_stats();
+            if st.3 != depth as f64 || st.0 != 1.0 {
+                return Err(format!("depth_stats = {:?} expected min 1, max {}", st, depth));
+            }
+            ck("dfs_iter().count()", t.dfs_iter().count(), n)?;
+            ck("dfs_edge_iter().count()", t.dfs_edge_iter().count(), n - 1)?;
+            let mut b = 0usize;
+            let mut it = Bfs::iter(&t, root);
+            let mut last_depth = 0usize;
+            while let Some(x) = it.next() {
+                b += 1;
+                last_depth = x.depth;
+            }
+            ck("Bfs count", b, n)?;
+            ck("Bfs last depth", last_depth, depth)?;
+            ck("path_to_node(deepest).len()", t.path_to_node(cur).map_err(|e| e.to_string())?.len(), depth)?;
+            let first = t.tree_node(root).map_err(|e| e.to_string())?.children_iter().next().unwrap().1;
+            let removed = t.remove_all_descendants(root).map_err(|e| e.to_string())?;
+            let _ = first;
+            ck("remove_all_descendants(root)", removed as usize, n - 1)?;
+            ck("len after removal", t.len(), 1)?;
+            Ok(())
+        }));
+        match r {
+            Ok(x) => x,
+            Err(e) => Err(format!("panic: {}", e.downcast_ref::<String>().cloned().or_else(|| e.downcast_ref::<&str>().map(|s| s.to_string())).unwrap_or_default())),
+        }
+    });
+    let res = match handle {
+        Ok(h) => {
+            let r = h.join().unwrap_or_else(|_| Err("thread died".into()));
+            crate::util::wal(&format!("case={} small-stack thread finished", case));
+            r
+        }
+        Err(_) => {
+            ev.skip("could not spawn the small-stack thread");
+            return;
+        }
+    };
+    match res {
+        Ok(()) => {
+            ev.inc("deep_combs_measured_on_a_2MiB_stack");
+            ev.count("deep_comb_levels", depth as u64);
+        }
+        Err(e) => ev.violation(case, "c13:deep-comb", "", json!({"depth": depth, "problem": e})),
+    }
+}
+
 pub fn run_case(ctx: &Ctx, case: u64, ev: &mut Ev) {
     let mut rng = Rng::derive(ctx.seed, "C13", case);
     rng.big = crate::draw_big(ctx, &mut rng);
+    if case % 6000 == 11 && !cfg!(miri) {
+        let depth = if ctx.tier == crate::Tier::Thorough { 200_000 + rng.below(200_000) } else { 80_000 + rng.below(60_000) };
+        return run_deep_comb(case, ev, depth);
+    }
     match rng.below(5) {
         0 | 1 => run::<2>(case, &mut rng, ev),
         2 | 3 => run::<3>(case, &mut rng, ev),
@@ -400,6 +474,58 @@ fn run<const K: usize>(case: u64, rng: &mut Rng, ev: &mut Ev) {
     let maxd = *depths.iter().max().unwrap();
     if t.depth() != maxd {
         fail!("c13:depth", format!("depth() = {} expected {} (root = 0 as pinned by test_depth)", t.depth(), maxd));
+    }
+    // query - reshape - query on the same object: metrics must be recomputed, not remembered. The expected
+    // values after the reshape are computed from the parent links of the mutated tree itself.
+    {
+        let mut t2 = t.clone();
+        let _ = (t2.depth(), t2.num_terminals(), t2.depth_stats());
+        let single: Vec<usize> = all.iter().cloned().filter(|i| *i != m.root && m.nodes[i].children.iter().flatten().count() == 1).collect();
+        let deepest = *all.iter().max_by_key(|i| m.depth(**i)).unwrap();
+        let what = if !single.is_empty() && rng.chance(0.6) {
+            // merge every single-child node on the way (shortens paths without changing len by more than that)
+            let mut n = 0;
+            for p in single.iter().rev() {
+                if t2.tree_node(*p).map(|nd| nd.children_iter().count() == 1).unwrap_or(false) && t2.parent(*p).is_ok() {
+                    let l = t2.tree_node(*p).unwrap().children_iter().next().unwrap().0;
+                    if t2.merge_child_with_parent(*p, l).is_ok() {
+                        n += 1;
+                    }
+                }
+            }
+            format!("merge_child_with_parent x{}", n)
+        } else if deepest != m.root && rng.chance(0.5) {
+            let (pp, ll) = m.label_in_parent(deepest).unwrap();
+            let _ = t2.try_remove_child(pp, ll);
+            "try_remove_child(deepest node)".to_string()
+        } else {
+            let l = (0..K).find(|l| m.nodes[&deepest].children[*l].is_none()).unwrap_or(0);
+            let _ = t2.add_child_node(deepest, l, 4242);
+            "add_child_node(below the deepest node)".to_string()
+        };
+        let mut exp_depth = 0usize;
+        let mut exp_terms = 0usize;
+        for i in t2.node_indices().collect::<Vec<_>>() {
+            let mut d = 0;
+            let mut cur = i;
+            while let Ok(e) = t2.parent(cur) {
+                cur = e.source_idx;
+                d += 1;
+                if d > 1_000_000 {
+                    break;
+                }
+            }
+            exp_depth = exp_depth.max(d);
+            if t2.tree_node(i).map(|nd| nd.children_iter().count() == 0).unwrap_or(false) {
+                exp_terms += 1;
+            }
+        }
+        if t2.depth() != exp_depth || t2.num_terminals() != exp_terms || t2.depth_stats().3 != exp_depth as f64 {
+            fail!(
+                "c13:metrics-after-reshape",
+                format!("after {}: depth() = {}, num_terminals() = {}, depth_stats().max = {}; recomputed from the parent links: depth {}, terminals {}", what, t2.depth(), t2.num_terminals(), t2.depth_stats().3, exp_depth, exp_terms)
+            );
+        }
     }
     let td: Vec<f64> = terms.iter().map(|i| m.depth(*i) as f64).collect();
     let n = td.len() as f64;
